@@ -35,10 +35,12 @@ type AdminController struct {
 	iam auth.IAMService
 	be  backend.Backend
 	l   s3log.AuditLogger
+	// readonly: the gateway must not change what it stores for buckets
+	readonly bool
 }
 
-func NewAdminController(iam auth.IAMService, be backend.Backend, l s3log.AuditLogger) AdminController {
-	return AdminController{iam: iam, be: be, l: l}
+func NewAdminController(iam auth.IAMService, be backend.Backend, l s3log.AuditLogger, readonly bool) AdminController {
+	return AdminController{iam: iam, be: be, l: l, readonly: readonly}
 }
 
 func (c AdminController) CreateUser(ctx *fiber.Ctx) error {
@@ -146,6 +148,14 @@ func (c AdminController) ListUsers(ctx *fiber.Ctx) error {
 func (c AdminController) ChangeBucketOwner(ctx *fiber.Ctx) error {
 	owner := ctx.Query("owner")
 	bucket := ctx.Query("bucket")
+
+	if c.readonly {
+		return SendResponse(ctx, s3err.GetAPIError(s3err.ErrAccessDenied),
+			&MetaOpts{
+				Logger: c.l,
+				Action: metrics.ActionAdminChangeBucketOwner,
+			})
+	}
 
 	// the bucket name is used as a path by the backend
 	if strings.Contains(bucket, "/") || bucket == "." || bucket == ".." {
